@@ -823,6 +823,10 @@ class SBytes:
             return False
         return bool(SBytes(self.items[:_real_len(p)]) == SBytes(p))
 
+    def ljust(self, width, fillbyte=b" "):
+        n = _real_len(self.items)
+        return _mkbytes(self.items + tobytes_items(fillbyte) * max(0, width - n))
+
     def endswith(self, suffix):
         p = tobytes_items(suffix)
         if _real_len(p) > _real_len(self.items):
@@ -983,6 +987,9 @@ class SStr:
 
     def __repr__(self):
         return f"SStr({self.items})"
+
+    def ljust(self, width, fillchar=" "):
+        return SStr(self.items + [ord(fillchar)] * max(0, width - _real_len(self.items)))
 
     def encode(self, encoding="utf-8", errors="strict"):
         return encode_model(self, encoding)
